@@ -8,8 +8,8 @@
 //! transaction ids, the reservation index (`utxo_map`), the cached routing work and
 //! the golden-ticket pool, writes Coq case files comparing them with
 //! `Mempool.trace`, and evaluates the property (I1..I5 of DESIGN §8 C14) directly
-//! on the implementation.  No listed finding is left at this commit; the histories
-//! of the fixed ones are the scripted cases.
+//! on the implementation.  The one listed finding: a pooled transaction that grows
+//! older than the age rule of Transaction::validate allows stays pooled.
 use std::collections::{BTreeMap, BTreeSet};
 use std::panic::{catch_unwind, AssertUnwindSafe};
 
@@ -31,13 +31,17 @@ const NODE_KEY: u8 = 1;
 const BUILDER_KEY: u8 = 2;
 const GAP: u64 = 120_000;
 
-/// listed findings an oracle failure can fall into: none at this commit (every class of the
-/// originally pinned tree is fixed; see known_findings.txt)
 #[derive(Clone, Copy, PartialEq, Eq, Debug, PartialOrd, Ord)]
-enum Class {}
+enum Class {
+    /// a pooled transaction grew older than the age rule of Transaction::validate allows
+    /// while it sat in the pool (the revalidation after a block looks at the utxoset only)
+    Aged,
+}
 impl Class {
     fn id(&self) -> &'static str {
-        match *self {}
+        match self {
+            Class::Aged => "aged-tx-stays-pooled",
+        }
     }
 }
 
@@ -117,6 +121,15 @@ struct Ctx {
     touched: BTreeSet<SaitoUTXOSetKey>,
     /// signatures of pooled golden-ticket transactions built NOT to solve their target
     bad_gts: BTreeSet<SaitoSignature>,
+    /// Gallina literal of the pool the case starts from (transactions written straight into
+    /// the pub map Mempool.transactions by the harness; empty_pool otherwise)
+    initial_pool: String,
+    /// 0 = nothing injected; 1 = conflicting transactions injected, index not rebuilt since;
+    /// 2 = injected and rebuilt
+    inject_phase: u8,
+    injected: BTreeSet<SaitoSignature>,
+    /// transactions that were pooled once and left the pool through a block addition
+    dead_txs: Vec<Transaction>,
     // oracle state
     /// (what, Some(known class) | None = violation)
     findings: Vec<(String, Option<Class>)>,
@@ -135,6 +148,7 @@ fn ty_code(t: TransactionType) -> &'static str {
         TransactionType::BlockStake => "TBlockStake",
         TransactionType::SPV => "TSPV",
         TransactionType::ATR => "TATR",
+        TransactionType::Issuance => "TIssuance",
         _ => "TOther",
     }
 }
@@ -167,6 +181,10 @@ impl Ctx {
             given: BTreeMap::new(),
             touched: BTreeSet::new(),
             bad_gts: BTreeSet::new(),
+            initial_pool: "empty_pool".to_string(),
+            inject_phase: 0,
+            injected: BTreeSet::new(),
+            dead_txs: vec![],
             nonce: 0,
             genesis_ledger: vec![],
             ops: vec![],
@@ -210,14 +228,27 @@ impl Ctx {
         } else {
             0
         };
+        // the block the age rule of Transaction::validate looks at
+        let oldest = tx
+            .from
+            .iter()
+            .filter(|s| s.amount > 0 && s.slip_type != SlipType::Bound)
+            .map(|s| s.block_id)
+            .min();
+        let own = tx.from.iter().all(|s| s.public_key == self.node.pk);
         format!(
-            "mkTx {} {} {} {} {} {}",
+            "mkTx {} {} {} {} {} {} {} {}",
             id,
             gal::list(&inputs),
             work,
             ty_code(tx.transaction_type),
             gal::boolean(ok),
-            target
+            target,
+            match oldest {
+                Some(b) => format!("(Some {})", b),
+                None => "None".to_string(),
+            },
+            gal::boolean(own)
         )
     }
 
@@ -287,31 +318,52 @@ impl Ctx {
 
     /// I1, I2, I3 (index form), I5 on the implementation after an operation.
     fn check_invariants(&mut self, kind: OpKind, _pre: &Snap, post: &Snap, _block_sigs: &BTreeSet<SaitoSignature>) {
+        // a pool the harness wrote conflicting transactions into: I1 is broken by the harness;
+        // index and cache are only meaningful after the first rebuild
+        if self.inject_phase == 1 && post.all_input_keys() == post.umap && post.work == post.sum_work() {
+            // some rebuild (failed Block::create, block addition) has brought them in line
+            self.inject_phase = 2;
+        }
+        let skip_index = self.inject_phase == 1;
         // I1: no two pooled transactions share a value-carrying input
         for (key, sp) in post.spenders() {
-            if sp.len() > 1 {
+            if sp.len() > 1 && !sp.iter().any(|s| self.injected.contains(s)) {
                 let k = self.it.get(&key);
                 let ids: Vec<u64> = sp.iter().map(|s| self.it.get(s)).collect();
                 self.finding(format!("I1: pooled transactions {:?} all spend output {} after {:?}", ids, k, kind), None);
             }
         }
-        // I2: every pooled transaction validates against the ledger
-        let invalid: Vec<SaitoSignature> = self
-            .node
-            .mempool
-            .transactions
-            .iter()
-            .filter(|(_, tx)| !tx.validate_against_utxoset(&self.node.blockchain.utxoset))
-            .map(|(s, _)| *s)
-            .collect();
-        for sig in invalid {
+        // I2: every pooled transaction validates against the ledger -- the utxoset lookup
+        // the pool itself re-applies after a block, and Transaction::validate as a whole
+        let mut bad: Vec<(SaitoSignature, bool)> = vec![];
+        for (sig, tx) in self.node.mempool.transactions.iter() {
+            let lookup = tx.validate_against_utxoset(&self.node.blockchain.utxoset);
+            let full = tx.validate(&self.node.blockchain.utxoset, &self.node.blockchain, true);
+            if !lookup {
+                bad.push((*sig, false));
+            } else if !full {
+                // known only when nothing but the age rule refuses it
+                let rest = tx.validate(&self.node.blockchain.utxoset, &self.node.blockchain, false);
+                let next = self.node.blockchain.get_latest_block_id() + 1;
+                let aged = tx.from.iter().any(|s| {
+                    s.amount > 0 && s.slip_type != SlipType::Bound && s.block_id + self.params.genesis_period < next
+                });
+                bad.push((*sig, rest && aged));
+            }
+        }
+        for (sig, aged) in bad {
             let id = self.it.get(&sig);
-            let what = format!("I2: pooled transaction {} does not validate against the ledger after {:?}", id, kind);
-            self.finding(what, None);
+            if aged {
+                let what = format!("I2: pooled transaction {} no longer passes Transaction::validate after {:?}: an input is older than the genesis period", id, kind);
+                self.finding(what, Some(Class::Aged));
+            } else {
+                let what = format!("I2: pooled transaction {} does not validate against the ledger after {:?}", id, kind);
+                self.finding(what, None);
+            }
         }
         // I3: every reservation belongs to a pooled transaction, every input of a pooled
         // transaction is reserved
-        let owned = post.all_input_keys();
+        let owned = if skip_index { post.umap.clone() } else { post.all_input_keys() };
         for k in post.umap.difference(&owned) {
             let kk = self.it.get(k);
             self.finding(format!("I3: reservation of output {} has no pooled transaction after {:?}", kk, kind), None);
@@ -321,7 +373,7 @@ impl Ctx {
             self.finding(format!("I1: input {} of a pooled transaction is not reserved after {:?}", kk, kind), None);
         }
         // I5: cached routing work = sum over the pooled transactions
-        if post.work != post.sum_work() {
+        if !skip_index && post.work != post.sum_work() {
             self.finding(
                 format!("I5: cached routing work {} but pooled transactions carry {} after {:?}", post.work, post.sum_work(), kind),
                 None,
@@ -379,6 +431,82 @@ impl Ctx {
         if hop && owner != self.node.pk {
             tx.add_hop(&sk, &owner, &self.node.pk);
         }
+        tx
+    }
+
+    /// writes transactions straight into the pub map Mempool.transactions (no reservation,
+    /// no work): the only way to confront Block::create with a double spend now that intake
+    /// refuses every conflict.  Only before the first operation of a case.
+    fn inject(&mut self, txs: Vec<Transaction>) {
+        assert!(self.ops.is_empty());
+        let mut lits = vec![];
+        for mut tx in txs {
+            tx.generate(&self.node.pk, 0, 0);
+            let ok = tx.validate(&self.node.blockchain.utxoset, &self.node.blockchain, false);
+            let lit = self.coq_tx(&tx, tx.total_work_for_me, ok);
+            lits.push(format!("({})", lit));
+            self.injected.insert(tx.signature);
+            self.node.mempool.transactions.insert(tx.signature, tx);
+        }
+        lits.reverse();
+        self.initial_pool = format!("(mkP {} [] 0 false [])", gal::list(&lits));
+        self.inject_phase = 1;
+        self.pooled_ever = true;
+        self.stat("inject:conflicting-pair");
+    }
+
+    /// a transaction that moves no value: one zero-amount input slip of `owner`, one
+    /// zero-amount output (reservation check skips amount 0, Block::create skips it too)
+    fn build_data_tx(&mut self, owner: usize, hop: bool) -> Transaction {
+        self.nonce += 1;
+        let (pk, sk) = self.keys[owner % self.keys.len()];
+        let mut tx = Transaction::default();
+        tx.transaction_type = TransactionType::Normal;
+        tx.timestamp = 2_000_000 + self.nonce;
+        tx.data = self.nonce.to_be_bytes().to_vec();
+        let mut i = Slip::default();
+        i.public_key = pk;
+        i.amount = 0;
+        i.generate_utxoset_key();
+        tx.add_from_slip(i);
+        let mut o = Slip::default();
+        o.public_key = pk;
+        o.amount = 0;
+        tx.add_to_slip(o);
+        tx.sign(&sk);
+        if hop && pk != self.node.pk {
+            tx.add_hop(&sk, &pk, &self.node.pk);
+        }
+        tx
+    }
+
+    /// a BlockStake transaction of the inputs' owner: one staking output, the rest as change
+    fn build_stake_tx(&mut self, inputs: &[Slip], stake: u64) -> Transaction {
+        self.nonce += 1;
+        let owner = inputs[0].public_key;
+        let sk = self.sk_of(&owner);
+        let total: u64 = inputs.iter().map(|s| s.amount).sum();
+        let mut tx = Transaction::default();
+        tx.transaction_type = TransactionType::BlockStake;
+        tx.timestamp = 2_000_000 + self.nonce;
+        for s in inputs {
+            let mut s = s.clone();
+            s.generate_utxoset_key();
+            tx.add_from_slip(s);
+        }
+        let mut o = Slip::default();
+        o.public_key = owner;
+        o.amount = stake.min(total);
+        o.slip_type = SlipType::BlockStake;
+        tx.add_to_slip(o);
+        if total > stake {
+            let mut ch = Slip::default();
+            ch.public_key = owner;
+            ch.amount = total - stake;
+            ch.slip_type = SlipType::Normal;
+            tx.add_to_slip(ch);
+        }
+        tx.sign(&sk);
         tx
     }
 
@@ -476,6 +604,8 @@ impl Ctx {
     /// hands a block to the node under test; valid blocks also go to the builder
     async fn op_give_block(&mut self, block: Block, label: &str, expect_valid: bool) -> AddClass {
         let pre = self.snap();
+        let pre_full: BTreeMap<SaitoSignature, Transaction> =
+            self.node.mempool.transactions.iter().map(|(k, v)| (*k, v.clone())).collect();
         let mut b = block.clone();
         let _ = b.generate();
         let sigs: BTreeSet<SaitoSignature> = b
@@ -501,7 +631,8 @@ impl Ctx {
                     self.finding(format!("second node classifies block {} as {:?}, node under test as {:?}", bh, rb, r), None);
                 }
                 let l = self.ledger();
-                (format!("OBlockAdded {} {}", gal::nlist(&l), btxs), OpKind::BlockAdded)
+                let latest = self.node.blockchain.get_latest_block_id();
+                (format!("OBlockAdded {} {} {}", gal::nlist(&l), latest, btxs), OpKind::BlockAdded)
             }
             AddClass::Invalid => (
                 format!("OBlockFailed {} {} {}", bh, gal::boolean(mine), btxs),
@@ -517,6 +648,15 @@ impl Ctx {
         };
         if expect_valid && r == AddClass::Invalid {
             self.finding(format!("block {} ({}) expected to be valid was rejected", bh, label), None);
+        }
+        if kind == OpKind::BlockAdded {
+            for sig in pre.txs.keys() {
+                if !post.txs.contains_key(sig) && self.dead_txs.len() < 8 {
+                    if let Some(t) = pre_full.get(sig) {
+                        self.dead_txs.push(t.clone());
+                    }
+                }
+            }
         }
         self.check_invariants(kind, &pre, &post, &sigs);
         let obs = self.observe(&post);
@@ -545,6 +685,13 @@ impl Ctx {
             b.burnfee += 1;
             let sk = self.builder.sk;
             resign(&mut b, &sk);
+            // sometimes a golden ticket naming the candidate itself is pooled first:
+            // add_block_failure -> Mempool::delete_block must remove it
+            if self.nonce % 2 == 0 {
+                let seed = self.nonce;
+                self.op_add_gt(b.hash, seed).await;
+                self.stat("add_gt:for-invalid-candidate");
+            }
         }
         Some(self.op_give_block(b, label, !tamper).await)
     }
@@ -688,6 +835,7 @@ impl Ctx {
         ));
         // I4: a block and exactly its transactions gone, or nothing changed
         let kind;
+        let mut left_out_work: u64 = 0;
         match &block {
             None => {
                 kind = OpKind::BundleNone;
@@ -696,7 +844,17 @@ impl Ctx {
                 if bad_gt.is_some() && ts_ok {
                     expect.gts.remove(&tip.hash);
                 }
-                if !expect.same_pool(&post) {
+                if self.inject_phase > 0 {
+                    // Block::create failed on the injected double spend: it must hand every
+                    // drained transaction back
+                    for sig in pre.txs.keys() {
+                        if !post.txs.contains_key(sig) {
+                            let id = self.it.get(sig);
+                            self.finding(format!("I4: bundle_block produced no block and pooled transaction {} is lost", id), None);
+                        }
+                    }
+                    self.stat("bundle:none-injected-conflict");
+                } else if !expect.same_pool(&post) {
                     self.finding(
                         format!(
                             "I4: bundle_block produced no block but changed the pool: {} -> {} transactions, {} -> {} reservations, cached work {} -> {}",
@@ -732,6 +890,7 @@ impl Ctx {
                         // block rebroadcasts (Block::create leaves it out; it is doomed)
                         if inputs.iter().any(|(k, a)| *a > 0 && rk.contains(k)) {
                             self.stat("bundle:left-out-rebroadcast-spender");
+                            left_out_work = left_out_work.wrapping_add(pre.txs[sig].2);
                         } else {
                             self.finding(format!("I4: pooled transaction {} neither in the bundled block nor left in the pool", id), None);
                         }
@@ -741,6 +900,20 @@ impl Ctx {
                     if bs.contains(sig) {
                         let id = self.it.get(sig);
                         self.finding(format!("I4: bundled transaction {} is still in the pool", id), None);
+                    }
+                }
+                // what Block::create adds itself is taken from the block for the model; check it
+                // independently: a rebroadcast consumes a spendable output of block tip - gp
+                for t in b.transactions.iter().filter(|t| t.transaction_type == TransactionType::ATR) {
+                    for sl in t.from.iter().filter(|sl| sl.amount > 0) {
+                        let spendable = self.node.blockchain.utxoset.get(&key_of(sl)).copied().unwrap_or(false);
+                        if !spendable || sl.block_id + self.params.genesis_period != tip.id {
+                            let k = self.it.get(&key_of(sl));
+                            self.finding(
+                                format!("I4: the bundled block rebroadcasts output {} of block {} (tip {}, genesis period {}, spendable {})", k, sl.block_id, tip.id, self.params.genesis_period, spendable),
+                                None,
+                            );
+                        }
                     }
                 }
                 if gt_used.is_none() && b.transactions.iter().any(|t| t.transaction_type == TransactionType::GoldenTicket) {
@@ -764,8 +937,21 @@ impl Ctx {
             resign(&mut block, &sk);
             Some(self.op_give_block(block, "bundled-then-corrupted", false).await)
         } else {
-            // "yields a valid block": the node and the second node must accept it
-            Some(self.op_give_block(block, "bundled", true).await)
+            // "yields a valid block": the node and the second node must accept it.  One listed
+            // way to miss that: can_bundle_block counted the routing work of transactions that
+            // Block::create then left out (they had grown too old in the pool)
+            let shortfall = left_out_work > 0 && pre.work.wrapping_sub(left_out_work) < work_needed;
+            let r = self.op_give_block(block, "bundled", !shortfall).await;
+            if shortfall && r == AddClass::Invalid {
+                self.finding(
+                    format!(
+                        "I4: bundled block rejected: can_bundle_block counted routing work {} >= {} needed, of which {} belongs to transactions Block::create left out",
+                        pre.work, work_needed, left_out_work
+                    ),
+                    Some(Class::Aged),
+                );
+            }
+            Some(r)
         }
     }
 
@@ -934,57 +1120,107 @@ async fn scripted(c: &mut Ctx, which: u64) {
                 c.op_submit(f, "valid", true).await;
             }
         }
-        // window edge (genesis period 5): pooled transactions spend outputs that the next
-        // block rebroadcasts.  6: one spends only such an output, another is unrelated (before
-        // 1214e31 the whole pool was lost).  7: one spends such an output AND a young output;
-        // the bundled block is corrupted so that its addition fails, then the young output is
-        // spent by a fresh transaction (listed finding left-out-tx-keeps-reservation)
+        // window edge (genesis period 5).  At tip 5 outputs of block 1 may still be spent
+        // (age rule of Transaction::validate); transactions doing so are pooled, a peer block
+        // moves the tip to 6: they stay pooled although validate() now refuses them (listed
+        // finding aged-tx-stays-pooled), and the node's next block (7) rebroadcasts what they
+        // spend.  6: one spends only such an output, another is unrelated (before 1214e31 the
+        // whole pool was lost; now the unrelated one is bundled).  7: one spends such an output
+        // AND a young output; the bundled block is corrupted so that its addition fails, then
+        // the young output is spent by a fresh transaction (it stayed reserved before ffb4da9)
         6 | 7 => {
             let other: Vec<Slip> = free.iter().filter(|s| s.public_key == c.keys[3].0).cloned().collect();
+            let gp = c.params.genesis_period;
             let mut k = 0;
-            for round in 0..14 {
-                let tip = c.tip();
-                let atr = c.rebroadcasts_on_tip(tip.timestamp + GAP).await;
-                let ours: Vec<Slip> = atr
-                    .iter()
-                    .flat_map(|t| t.from.iter().cloned())
-                    .filter(|s| s.amount > 0 && s.public_key == c.keys[2].0)
-                    .filter(|s| c.node.blockchain.utxoset.get(&key_of(s)).copied().unwrap_or(false))
-                    .collect();
-                if !ours.is_empty() {
-                    // outputs created after genesis, not rebroadcast by this block, same owner
-                    let young: Vec<Slip> = unclaimed(c)
-                        .into_iter()
-                        .filter(|s| s.block_id > 1 && s.public_key == c.keys[2].0)
-                        .collect();
-                    if young.len() < 2 {
-                        break;
-                    }
-                    let unrelated = c.build_tx(&young[0..1], 5, 0, true);
-                    c.op_submit(unrelated, "valid", true).await;
-                    if Ctx::needs_gt(&c.node, tip.hash) {
-                        c.op_add_gt(tip.hash, 900 + round).await;
-                    }
-                    if which == 6 {
-                        let edge = c.build_tx(&ours[0..1], 20, 1, true);
-                        c.op_submit(edge, "valid-window-edge", true).await;
-                        c.op_bundle(GAP, 0).await;
-                    } else {
-                        let edge = c.build_tx(&[ours[0].clone(), young[1].clone()], 20, 1, true);
-                        c.op_submit(edge, "valid-window-edge", true).await;
-                        c.op_bundle(GAP, 1).await;
-                        let f = c.build_tx(&young[1..2], 7, 1, true);
-                        c.op_submit(f, "valid", true).await;
-                    }
-                    break;
-                }
-                if k + 1 >= other.len() {
-                    break;
-                }
+            while c.tip().id < gp && k < other.len() {
                 let t = c.build_tx(&other[k..k + 1], 10, 2, false);
                 k += 1;
                 c.op_peer_block(vec![t], false, false, "peer-unrelated").await;
             }
+            let old: Vec<Slip> = unclaimed(c).into_iter().filter(|s| s.block_id == 1 && s.public_key == c.keys[2].0).collect();
+            let young: Vec<Slip> = unclaimed(c).into_iter().filter(|s| s.block_id > 1 && s.public_key == c.keys[2].0).collect();
+            if c.tip().id == gp && !old.is_empty() && young.len() >= 2 && k < other.len() {
+                let unrelated = c.build_tx(&young[0..1], 5, 0, true);
+                c.op_submit(unrelated, "valid", true).await;
+                let edge = if which == 6 {
+                    c.build_tx(&old[0..1], 20, 1, true)
+                } else {
+                    c.build_tx(&[old[0].clone(), young[1].clone()], 20, 1, true)
+                };
+                c.op_submit(edge, "valid-window-edge", true).await;
+                let t = c.build_tx(&other[k..k + 1], 10, 2, false);
+                c.op_peer_block(vec![t], false, false, "peer-unrelated").await;
+                // a new arrival spending an output of block 1 is refused now
+                if old.len() > 1 {
+                    let late = c.build_tx(&old[1..2], 20, 1, true);
+                    c.op_submit(late, "too-old-input", false).await;
+                }
+                let tip = c.tip();
+                if Ctx::needs_gt(&c.node, tip.hash) {
+                    c.op_add_gt(tip.hash, 900).await;
+                }
+                if which == 6 {
+                    c.op_bundle(GAP, 0).await;
+                } else {
+                    c.op_bundle(GAP, 1).await;
+                    let f = c.build_tx(&young[1..2], 7, 1, true);
+                    c.op_submit(f, "valid", true).await;
+                }
+            }
+        }
+        // Block::create's double-spend detection and hand-back (block.rs) and bundle_block's
+        // Err arm: two conflicting transactions are written straight into Mempool.transactions,
+        // a third arrives normally; the bundle must fail and lose nothing; index and cache are
+        // rebuilt; a peer block then confirms one of the pair
+        9 => {
+            let a = c.build_tx(&mine[0..1], 50, 0, true);
+            let b = c.build_tx(&mine[0..1], 30, 1, true);
+            c.inject(vec![a.clone(), b]);
+            let t = c.build_tx(&mine[1..2], 20, 1, true);
+            c.op_submit(t, "valid", true).await;
+            c.op_bundle(GAP, 0).await;
+            c.op_bundle(GAP, 0).await;
+            c.op_peer_block(vec![a], false, false, "peer-confirming").await;
+            c.op_bundle(GAP, 0).await;
+        }
+        // add_block_transactions_back's validate filter: a pooled transaction is evicted by a
+        // peer block that spends one of its inputs; an invalid candidate of the node's own
+        // making carries it together with a pooled one: only the latter may come back
+        10 => {
+            let a = c.build_tx(&mine[0..2], 50, 0, true);
+            c.op_submit(a.clone(), "valid", true).await;
+            let b = c.build_tx(&mine[0..1], 10, 1, false);
+            c.op_peer_block(vec![b], false, false, "peer-conflicting").await;
+            let t = c.build_tx(&mine[2..3], 20, 1, true);
+            c.op_submit(t.clone(), "valid", true).await;
+            let mut t2 = t.clone();
+            t2.generate(&c.node.pk, 0, 0);
+            c.op_own_invalid_candidate(vec![a, t2]).await;
+        }
+        // staking transactions from outside: one of another key (refused since 9879695), one
+        // of the node's own key (taken), then a bundle
+        11 => {
+            let theirs: Vec<Slip> = free.iter().filter(|s| s.public_key == c.keys[3].0).cloned().collect();
+            let ours: Vec<Slip> = free.iter().filter(|s| s.public_key == c.node.pk).cloned().collect();
+            let f = c.build_stake_tx(&theirs[0..1], 1000);
+            c.op_submit(f, "stake-foreign", false).await;
+            let o = c.build_stake_tx(&ours[0..1], 1000);
+            c.op_submit(o, "stake-own", false).await;
+            let t = c.build_tx(&mine[0..1], 20, 1, true);
+            c.op_submit(t, "valid", true).await;
+            c.op_bundle(GAP, 0).await;
+        }
+        // transactions without value: the same zero-amount input in two transactions of one
+        // sender is no conflict, a resubmission is stopped by the signature check only
+        12 => {
+            let d1 = c.build_data_tx(2, true);
+            let d2 = c.build_data_tx(2, true);
+            let d3 = c.build_data_tx(3, false);
+            c.op_submit(d1.clone(), "data", true).await;
+            c.op_submit(d2, "data", true).await;
+            c.op_submit(d1, "data-duplicate", false).await;
+            c.op_submit(d3, "data", true).await;
+            c.op_bundle(GAP, 0).await;
         }
         // plain life cycle: arrivals, conflict and duplicate rejected, bundle, peer block
         _ => {
@@ -1005,6 +1241,16 @@ async fn scripted(c: &mut Ctx, which: u64) {
 
 async fn random_case(c: &mut Ctx, rng: &mut Rng, len: usize) {
     let mut steps = 0;
+    if rng.chance(1, 12) {
+        // start from a pool with a double spend written into it
+        let free = unclaimed(c);
+        let ins = same_owner(&free, 1, rng);
+        if !ins.is_empty() {
+            let a = c.build_tx(&ins, 40, rng.below(4) as usize, rng.chance(1, 2));
+            let b = c.build_tx(&ins, 25, rng.below(4) as usize, rng.chance(1, 2));
+            c.inject(vec![a, b]);
+        }
+    }
     while c.ops.len() < len && steps < 3 * len {
         steps += 1;
         let r = rng.below(100);
@@ -1048,6 +1294,12 @@ async fn random_case(c: &mut Ctx, rng: &mut Rng, len: usize) {
             let tx = c.build_tx(&ins, 20, rng.below(4) as usize, rng.chance(1, 2));
             c.op_submit(tx, "conflicting", false).await;
         } else if r < 46 {
+            // a transaction without value, or a duplicate
+            if rng.chance(1, 4) {
+                let tx = c.build_data_tx(rng.below(4) as usize, rng.chance(1, 2));
+                c.op_submit(tx, "data", true).await;
+                continue;
+            }
             // duplicate (same signature; sometimes with a different routing path)
             if pooled.is_empty() {
                 continue;
@@ -1063,7 +1315,14 @@ async fn random_case(c: &mut Ctx, rng: &mut Rng, len: usize) {
             if ins.is_empty() {
                 continue;
             }
-            match rng.below(4) {
+            match rng.below(5) {
+                4 => {
+                    // staking transactions arriving from outside: of another key / the node's
+                    let stake = *rng.pick(&[0u64, 500, 1_000_000_000]);
+                    let tx = c.build_stake_tx(&ins, stake);
+                    let label = if ins[0].public_key == c.node.pk { "stake-own" } else { "stake-foreign" };
+                    c.op_submit(tx, label, false).await;
+                }
                 3 => {
                     // producer-only types arriving from outside
                     let mut tx = c.build_tx(&ins, 10, 0, false);
@@ -1174,8 +1433,22 @@ async fn random_case(c: &mut Ctx, rng: &mut Rng, len: usize) {
                 }
                 c.op_peer_block(txs, false, true, "peer-invalid").await;
             } else {
-                let txs = pooled_clone(c, 2);
-                if txs.is_empty() || c.snap().has_dup_spend() {
+                let mut txs = pooled_clone(c, 2);
+                if c.snap().has_dup_spend() {
+                    continue;
+                }
+                // sometimes the candidate also carries a transaction that left the pool
+                // through an earlier block (confirmed or invalidated): it must not come back
+                if rng.chance(1, 2) {
+                    if let Some(d) = c.dead_txs.last().cloned() {
+                        let mut seen: BTreeSet<SaitoUTXOSetKey> = txs.iter().flat_map(|t| t.from.iter().map(key_of)).collect();
+                        if d.from.iter().all(|s| seen.insert(key_of(s))) {
+                            txs.push(d);
+                            c.stat("own-invalid:carries-dead-tx");
+                        }
+                    }
+                }
+                if txs.is_empty() {
                     continue;
                 }
                 c.op_own_invalid_candidate(txs).await;
@@ -1235,7 +1508,14 @@ async fn run_case(kind: u64, seed: u64, len: usize, debug: bool) -> CaseOut {
         random_case(&mut c, &mut rng, len).await;
     }
     let exp = gal::nlllist(&c.exp);
-    let coq = format!("({}, {}, {})", gal::nlist(&c.genesis_ledger), gal::list(&c.ops), exp);
+    let coq = format!(
+        "(({}, {}), {}, {}, {})",
+        gal::nlist(&c.genesis_ledger),
+        c.params.genesis_period,
+        c.initial_pool,
+        gal::list(&c.ops),
+        exp
+    );
     let desc = format!(
         "{{\"kind\": {}, \"seed\": {}, \"ops\": [{}]}}",
         if kind < 100 { format!("\"scripted-{}\"", kind) } else { "\"random\"".to_string() },
@@ -1268,7 +1548,7 @@ fn main() {
             }
         }
     };
-    let mut plan: Vec<(u64, u64, usize)> = (0..9u64).map(|k| (k, 0, 0)).collect();
+    let mut plan: Vec<(u64, u64, usize)> = (0..14u64).map(|k| (k, 0, 0)).collect();
     for _ in 0..nrandom {
         let len = rng.range(6, 22) as usize;
         plan.push((100, rng.next(), len));
@@ -1324,19 +1604,22 @@ fn main() {
                 let desc = format!("{{\"kind\": {}, \"seed\": {}, \"panic\": {}}}", kind, seed, jstr(&msg));
                 summary.oracle_failure(idx, &format!("panic while running the case: {}", msg), &desc);
                 summary.case_descs.push(desc);
-                coq_cases.push("([], [], [])".to_string());
+                coq_cases.push("(([], 1), empty_pool, [], [])".to_string());
             }
         }
         summary.evaluations += 1;
     }
+    // a case: ((spendable keys after genesis, genesis period), initial pool, operations,
+    // expected trace); the genesis block has id 1; the initial pool is empty_pool unless the
+    // harness wrote transactions straight into Mempool.transactions before the first operation
     let header = "From Saito Require Import Base Mempool.\n\
-        Definition check (c : list N * list op * list (list (list N))) : bool :=\n\
-        let '(g, ops, expected) := c in eqb_lllN (trace (init g) ops) expected.";
+        Definition check (c : (list N * N) * pool * list op * list (list (list N))) : bool :=\n\
+        let '((g, gp), p0, ops, expected) := c in eqb_lllN (trace (mkS p0 (mkC g 1 gp)) ops) expected.";
     let files = gal::write_shards(
         &format!("{}/cases", args.out),
         "C14",
         header,
-        "list N * list op * list (list (list N))",
+        "(list N * N) * pool * list op * list (list (list N))",
         &coq_cases,
         args.shards,
     )
